@@ -15,6 +15,7 @@ CONSTANTS
     ValidateUrls = TRUE
     CountSeparator = TRUE
     WriteEmptyUrlLabels = TRUE
+    ExtraStripsPreset = FALSE
     WholeDigests = TRUE
     UrlIdx = "layer"
     ReaderChecksRef = TRUE
